@@ -169,8 +169,15 @@ def _resolve_shortcase_citation(
     for full_citation, resource in resolved_full_cites:
         if (
             isinstance(full_citation, FullCaseCitation)
-            and short_citation.corrected_reporter()
-            == full_citation.corrected_reporter()
+            and (
+                short_citation.corrected_reporter()
+                == full_citation.corrected_reporter()
+                # the same written reporter: the full citation's year may
+                # have narrowed an ambiguous reporter string to one edition
+                # while the short form, which has no year, stays unguessed
+                or short_citation.groups.get("reporter")
+                == full_citation.groups.get("reporter")
+            )
             and short_citation.groups.get("volume")
             == full_citation.groups.get("volume")
         ):
